@@ -37,6 +37,7 @@ package pogreb
 //@   ensures newfid: err == nil ==> (dl.curSeg == old(dl.curSeg) && old(dl.segments[dl.curSeg.id] == dl.curSeg)) || fresh(dl.curSeg.file) && forall h ref :: old(hOpen[h]) ==> h != ref(dl.curSeg.file.File) && fidOf[h] != fidOf[dl.curSeg.file.File]
 //@   ensures [C03] sealed-untouched: err == nil ==> forall i int :: 0 <= i && i < 32767 && old(dl.segments[i]) != nil && old(dl.segments[i].meta.Full) ==> dl.segments[i].file.size == old(dl.segments[i].file.size) && fLen[fidOf[dl.segments[i].file.File]] == old(fLen[fidOf[dl.segments[i].file.File]]) && fData[fidOf[dl.segments[i].file.File]] == old(fData[fidOf[dl.segments[i].file.File]])
 //@   ensures sizes: forall f *file :: f != dl.curSeg.file && !fresh(f) ==> f.size == old(f.size) && f.File == old(f.File)
+//@   ensures table-grows: tableGrows(dl)
 //@   ensures positions: forall h ref :: old(hOpen[h]) ==> hPos[h] == old(hPos[h])
 //@   ensures errs: err != ErrIterationDone
 //@   flag lossless
@@ -54,6 +55,7 @@ package pogreb
 //@   ensures newfid: err == nil ==> (dl.curSeg == old(dl.curSeg) && old(dl.segments[dl.curSeg.id] == dl.curSeg)) || fresh(dl.curSeg.file) && forall h ref :: old(hOpen[h]) ==> h != ref(dl.curSeg.file.File) && fidOf[h] != fidOf[dl.curSeg.file.File]
 //@   ensures [C03] sealed-untouched: err == nil ==> forall i int :: 0 <= i && i < 32767 && old(dl.segments[i]) != nil && old(dl.segments[i].meta.Full) ==> dl.segments[i].file.size == old(dl.segments[i].file.size) && fLen[fidOf[dl.segments[i].file.File]] == old(fLen[fidOf[dl.segments[i].file.File]]) && fData[fidOf[dl.segments[i].file.File]] == old(fData[fidOf[dl.segments[i].file.File]])
 //@   ensures sizes: forall f *file :: f != dl.curSeg.file && !fresh(f) ==> f.size == old(f.size) && f.File == old(f.File)
+//@   ensures table-grows: tableGrows(dl)
 //@   ensures positions: forall h ref :: old(hOpen[h]) ==> hPos[h] == old(hPos[h])
 //@   ensures errs: err != ErrIterationDone
 //@   flag lossless
@@ -64,6 +66,7 @@ package pogreb
 //@   requires inv: db == theDB() && key == theKey() && dbFull(db) && idxInLog(db) && idxFreeOK(db.index) && db.index.level < 31
 //@   requires slot: slotInSeg(db.datalog, sl)
 //@   ensures inv: err == nil ==> dbInv(db)
+//@   ensures [C01] inv-index: err == nil ==> dbFull(db) && idxFreeOK(db.index)
 //@   ensures log: segmentsUntouched(db.datalog)
 //@   modifies any(index).freeBucketOffs, any(index).level, any(index).numKeys, any(index).numBuckets, any(index).splitBucketIdx, any(segmentMeta).DeletedKeys, any(segmentMeta).DeletedBytes, any(file).size, any(slotWriter).bucket, any(slotWriter).slotIdx, any(slotWriter).prevBuckets, any(bucketHandle).bucket, elems(*bucketHandle), elems(int64), fLen, fDur, fData
 
@@ -72,6 +75,7 @@ package pogreb
 //@   ensures [C06] durable: err == nil ==> dlAllDurable(db.datalog)
 //@   ensures inv: dbInv(db)
 //@   ensures [C15] usable: err != nil ==> isIOErr(err)
+//@   ensures frontier: forall f ref :: fDur[f] >= old(fDur[f]) && (old(fDur[f]) <= fLen[f] ==> fDur[f] <= fLen[f])
 //@   modifies fDur
 
 //@ func (db *DB) Sync() (err error) [C06,C15]
@@ -98,6 +102,7 @@ package pogreb
 //@   ensures [C16] rejected-untouched: len(key) > 65535 || len(value) > 536870912 ==> fData == old(fData) && fLen == old(fLen) && fDur == old(fDur) && dirFid == old(dirFid) && db.index.numKeys == old(db.index.numKeys) && segmentsUntouched(db.datalog)
 //@   ensures [C06] synced: err == nil && db.syncWrites ==> dlAllDurable(db.datalog)
 //@   ensures inv: err == nil ==> dbInv(db)
+//@   ensures [C01] inv-index: err == nil ==> dbFull(db) && idxFreeOK(db.index)
 //@   ensures unlocked: lockSt[fieldaddr(db, mu)] == 0
 //@   flag lossless
 //@   modifies *
@@ -107,5 +112,6 @@ package pogreb
 //@   requires unlocked: lockSt[fieldaddr(db, mu)] == 0
 //@   ensures [C06] synced: err == nil && db.syncWrites ==> dlAllDurable(db.datalog)
 //@   ensures inv: err == nil ==> dbInv(db)
+//@   ensures [C01] inv-index: err == nil ==> dbFull(db) && idxInLog(db)
 //@   ensures unlocked: lockSt[fieldaddr(db, mu)] == 0
 //@   modifies *
